@@ -324,6 +324,52 @@ func concurrentSessionCreation(run *evid.Run, round int) {
 	}
 }
 
+// concurrentDeletes: several goroutines delete the same blob / manifest / tag at once. In every
+// sequential order exactly one of them finds it: exactly one call may succeed.
+func concurrentDeletes(run *evid.Run, round int) {
+	reg := ocimem.New()
+	b := []byte(fmt.Sprintf("blob to delete %d", round))
+	mf := []byte(fmt.Sprintf("manifest to delete %d", round))
+	reg.PushBlob(bg, "r", blobDesc(b), bytes.NewReader(b))
+	md, err := reg.PushManifest(bg, "r", "t", mf, "application/x-opaque")
+	if err != nil {
+		run.Inconclusive("setup: " + err.Error())
+		return
+	}
+	what := []string{"DeleteBlob", "DeleteManifest", "DeleteTag"}[round%3]
+	nG := 2 + round%5
+	var wg sync.WaitGroup
+	var oks atomic.Int64
+	start := make(chan struct{})
+	for g := 0; g < nG; g++ {
+		wg.Add(1)
+		go func() {
+			defer wg.Done()
+			<-start
+			var err error
+			switch what {
+			case "DeleteBlob":
+				err = reg.DeleteBlob(bg, "r", blobDesc(b).Digest)
+			case "DeleteManifest":
+				err = reg.DeleteManifest(bg, "r", md.Digest)
+			case "DeleteTag":
+				err = reg.DeleteTag(bg, "r", "t")
+			}
+			if err == nil {
+				oks.Add(1)
+			}
+		}()
+	}
+	close(start)
+	wg.Wait()
+	run.Eval(1)
+	run.Count("concurrent_delete_rounds", 1)
+	run.Distinct(fmt.Sprintf("concurrent-deletes/%s/goroutines=%d", what, nG))
+	if n := oks.Load(); n != 1 {
+		run.Violation("invariant/delete-exactly-once/"+what, fmt.Sprintf("%d concurrent %s calls on the same object: %d reported success, exactly one can in any sequential order", nG, what, n), map[string]any{"round": round, "goroutines": nG, "successes": n})
+	}
+}
+
 // ---------- 3. linearizability
 
 type hop struct {
@@ -723,6 +769,7 @@ func main() {
 		}
 		for k := 0; k < run.N(400, 2000); k++ {
 			concurrentSessionCreation(run, r*10000+k)
+			concurrentDeletes(run, r*10000+k)
 		}
 	}
 	runtime.GOMAXPROCS(16)
